@@ -30,6 +30,14 @@ P = {
   "For every world inside the deviation bound, every graph kind and every set of <= 2 module-holding specifiers as segment roots: each dependency of each module in the segment resolves and looks up as in the original, validation verdicts agree, and for non-original roots the listing equals a direct build of those roots.",
   "Differential oracle. Segment roots are specifiers that no import loads as an asset (same-attribute proviso; a root is an attribute-less import).",
   "DESIGN.md §4 C18", TECH + "; deviation-bounded enumeration of module worlds x graph kinds x segment roots, differential oracle"),
+ "C02": (True,
+  "Structured placements (9 failure kinds x 6 edge kinds x 0..3 redirect hops x sibling x local/remote) are built with the real builder and validated under all 36 walk option sets and valid(); the verdict is compared both with the verdict known by construction and with an independent reachability computation over the graph's recorded dependencies (complete enumeration). Generic worlds inside the deviation bound are compared with the reachability reference.",
+  "The reachability reference reads Module::dependencies / redirects / imports through the public API. A root of unknown media type is (leniently) JavaScript and not counted as a failure; the resolution of a configured import itself is outside the statement.",
+  "DESIGN.md §4 C02", TECH + "; Full enumeration of failure placements + deviation-bounded worlds, oracle = construction ground truth and reachability reference"),
+ "C15": (True,
+  "Every graph built from a world inside the deviation bound is walked from every root set of <= 2 world specifiers under all 36 option sets, plain and with skip_previous_dependencies() after each single entry / every entry; yielded sets (no duplicates) and keyed error listings are compared with a set-based reference fixpoint.",
+  "Reference fixpoint written over the public API (serialised slot table, redirects, imports, dependencies). Generic worlds have no fast-check modules.",
+  "DESIGN.md §4 C15", TECH + "; deviation-bounded worlds x all walk options x root sets x skip sets against a reference fixpoint"),
 }
 
 ALL = ["C%02d" % i for i in range(1, 21)]
